@@ -3,6 +3,7 @@ D: every shape of every loadable sample (all geometry kinds, skinned and unskinn
    (single, prefix, suffix, random, all) × repeated deletions; the real DeleteVertsForShape is run and everything is observed
    before/after and after save+reload. Oracle = the property; correspondence = Lean deleteVerts predicts survivors/triangles."""
 import json
+import os
 
 from props import filecamp
 from props import segrefit
@@ -209,6 +210,16 @@ def run(ctx):
                 a = sorted(rng.sample(range(nv), max(1, nv // 5)))
                 b = sorted(rng.sample(range(nv - len(a)), max(1, (nv - len(a)) // 5)))
                 lines.append(f"c09.run mesh:{ver}:{nv}:{nt}:{sd}:{fl}:{nb}:{parts} 0 {','.join(map(str, a))};{','.join(map(str, b))} reload")
+        # strip geometry (no sample carries any): NiTriStrips shapes built by the library itself
+        cdir = os.path.join(C.CACHE, "constructed")
+        os.makedirs(cdir, exist_ok=True)
+        jobs = [(v, n, os.path.join(cdir, f"c09-strips-{v}-{n}.nif")) for v in ("ob", "fo3", "sk") for n in (1, 4)]
+        built = C.run_lines_parallel(ctx.harness, [f"fs new:{v} stripshape:{n} save:{p}:raw" for v, n, p in jobs])
+        for (v, n, p), o in zip(jobs, built):
+            if all(x.startswith("ok") for x in o.split(" ")):
+                nv = sum(3 + k % 3 for k in range(n))
+                for sub in gen_subsets(rng, nv, ctx.tier):
+                    lines.append(f"c09.run load:{p} 0 {','.join(map(str, sub))} reload")
         # exhaustive: every subset of a 5-vertex mesh
         for mask in range(1, 32):
             sub = [i for i in range(5) if mask >> i & 1]
